@@ -151,9 +151,9 @@ def m_ok_or_else(it, p, callee, args):
     return Enum(it.const_int(1, "isize"), {1: Tup([Opaque("error-from-closure")])}, sm.RESULT, "Result")
 
 
-INLINE = q.INLINE + [r"^write_(short_bytes|string|string_list|string_map|bytes_opt|long_string)(::<.*>)?$", r"^serialize_batch_statement(::<.*>)?$",
-                     r"^RowWriter::<'_>::(new|value_count|append_serialize_row)$", r"do_serialize$", r"^frame::types::write_int(::<.*>)?$",
-                     r"^SerializedValues::(element_count|is_empty|get_contents)$"]
+INLINE = q.INLINE + [r"(^|::)write_(short_bytes|string|string_list|string_map|bytes_opt|long_string)(::<.*>)?$", r"(^|::)serialize_batch_statement(::<.*>)?$",
+                     r"(^|::)RowWriter::<'_>::(new|value_count|append_serialize_row)$", r"do_serialize$", r"(^|::)frame::types::write_int(::<.*>)?$",
+                     r"(^|::)SerializedValues::(element_count|is_empty|get_contents)$"]
 
 
 def make_frame(mf, reg, ser_header_re, opcode, req, tracing, pre, compressed=False, tag=""):
@@ -391,8 +391,60 @@ def batch_frames(ctx, mf, reg, tier):
               backend="BV", assumes=LIB, witness=False, replay=lambda m: replay_batch_mismatch(m))
 
 
+PROTOCOL_CODES = {
+    "Consistency": {"Any": 0, "One": 1, "Two": 2, "Three": 3, "Quorum": 4, "All": 5, "LocalQuorum": 6, "EachQuorum": 7, "Serial": 8, "LocalSerial": 9, "LocalOne": 10},
+    "SerialConsistency": {"Serial": 8, "LocalSerial": 9},
+    "BatchType": {"Logged": 0, "Unlogged": 1, "Counter": 2},
+    "RequestOpcode": {"Startup": 0x01, "Options": 0x05, "Query": 0x07, "Prepare": 0x09, "Execute": 0x0A, "Register": 0x0B, "Batch": 0x0D, "AuthResponse": 0x0F},
+}
+
+
+def wire_codes(ctx, mf, reg, tier):
+    """the frame obligations take the numeric value of an enum variant from the CURRENT source (that is what the compiled code writes); this one pins those
+    values to the protocol's tables, so that renumbering a variant is a violation rather than something the other obligations follow along with"""
+    goals, details = [], []
+    for ename, table in PROTOCOL_CODES.items():
+        ed = reg.get(ename)
+        if ed is None:
+            raise mir.Unsupported("enum " + ename + " not found in the sources")
+        names = {n for n, _, _ in ed.variants}
+        goals.append(z3.BoolVal(names == set(table)))
+        for n, v, _ in ed.variants:
+            goals.append(z3.BoolVal(table.get(n) == v)); details.append(f"{ename}::{n}={v}")
+    # and the conversion that actually writes a consistency level: write_consistency for every level
+    sel = z3.BitVec("consistency_selector", 8)
+    ed = reg.get("Consistency")
+    d = bv(0, 64); want = bv(0xffff, 16)
+    for i, (n, v, _) in enumerate(ed.variants):
+        d = z3.If(sel == i, bv(v, 64), d); want = z3.If(sel == i, bv(PROTOCOL_CODES["Consistency"].get(n, 0xffff), 16), want)
+    pre = [z3.ULT(sel, len(ed.variants))]
+    it = mir.Interp(mf, mir.BVBackend(), q.models(), inline=q.INLINE, registry=reg, max_steps=2000)
+    sink = Cell(Seq([]))
+    paths = it.run(mf.find(r"(^|::)write_consistency\("), [Enum(Int(d, 64, True), {}, ed.variant_map(), ed.name), Ref(sink)], pre)
+    for p in paths:
+        pc = z3.And(p.pc) if p.pc else z3.BoolVal(True)
+        if p.outcome[0] != "return":
+            goals.append(z3.Not(pc)); continue
+        items = sm.deref(p.locals[2].v).items
+        goals.append(z3.Implies(pc, z3.And(z3.BoolVal(len(items) == 2), z3.Concat(items[0].t, items[1].t) == want) if len(items) == 2 else z3.BoolVal(False)))
+    ctx.prove("c09_enum_wire_codes_match_the_protocol_tables", pre, z3.And(goals), inputs=[sel],
+              functions="enum definitions Consistency / SerialConsistency / BatchType / RequestOpcode (variant values as compiled), types::write_consistency",
+              bounds="every variant of the four enums whose numeric value goes on the wire: the value in the current source equals the CQL v4 code, no variant is missing or extra; "
+                     "write_consistency writes that code big-endian for every level (symbolic selector)",
+              backend="BV", assumes=LIB, witness=False, replay=lambda m: replay_codes())
+
+
+def replay_codes():
+    from . import native
+    nat = native.Native("core")
+    got = nat.ask("wirecodes")
+    nat.close()
+    want = " ".join(f"{e}::{n}={v}" for e, t in PROTOCOL_CODES.items() for n, v in t.items())
+    return native.record("C09", "wire_codes", {"native": got, "expected": want}, got != want)
+
+
 def run(ctx, mf, reg, tier):
-    for name, f in (("simple_requests", simple_requests), ("execute_frames", execute_frames), ("batch_frames", batch_frames)):
+    for name, f in (("wire_codes", wire_codes), ("simple_requests", simple_requests), ("execute_frames", execute_frames), ("batch_frames", batch_frames)):
         try:
             f(ctx, mf, reg, tier)
         except mir.Unsupported as e:
